@@ -132,3 +132,8 @@ Print Assumptions C11_source_disconnect_paths.
 Theorem C11_source_critical_sections : V9.Race.Facts.violations = [].
 Proof. exact V9.Shape.PLocks.sites_comply_ok. Qed.
 Print Assumptions C11_source_critical_sections.
+
+(* Ufs: the one reference taken outside the framework's request bookkeeping (the target of a hard link) is dropped on every path *)
+Theorem C11_source_ufs_link_drops_reference : V9.Shape.ShapeLib.ufs_link_drops_reference = true.
+Proof. exact V9.Shape.PDisc.ufs_link_drops_reference_ok. Qed.
+Print Assumptions C11_source_ufs_link_drops_reference.
